@@ -20,9 +20,12 @@ Definition a_read (i : nat) : action cache local :=
 
 (* BlueprintLookupHint.Solve as one atomic step (the granularity at which the harness drives the real
    blueprint): fill up to n entries from this client's values, then answer query i from the cache *)
+(* an instruction sees only the first n entries (entries := cachedEntries[:nbEntries]); a query at or beyond
+   n fails with "lookup query too large" however many entries other instructions have cached already *)
+Definition lookup_err : Z := 18446744073709551615%Z.
 Definition a_solve (n i : nat) : action cache local :=
   fun c l => let c' := c ++ firstn (n - length c) (skipn (length c) (tbl l)) in
-             (c', {| tbl := tbl l; results := results l ++ [nth i c' (-1)%Z] |}).
+             (c', {| tbl := tbl l; results := results l ++ [if Nat.ltb i n then nth i c' lookup_err else lookup_err] |}).
 
 (* one Solve of a system with one lookup of index i in a table of n entries *)
 Definition solve_prog (n i : nat) : list (action cache local) := [a_reset; a_fill n; a_read i].
